@@ -84,8 +84,28 @@ def _ro_edge_filter(fa: FA):
                 and A.dotted(e.left) == "self.read_only" and isinstance(e.comparators[0], ast.Constant) \
                 and isinstance(e.comparators[0].value, bool):
             return e.comparators[0].value is True
+        # the flag seen through a property of the class (`self._writable` returning `not self.read_only`): what the property
+        # returns, evaluated under the same assumption
+        if isinstance(e, ast.Attribute) and isinstance(e.value, ast.Name) and e.value.id == "self" and fa.fi.cls is not None and depth[0] < 3:
+            m = fa.ck.repo.find_method(fa.fi.cls, e.attr)
+            if m is not None and m.node is not None and "property" in m.decorators and len(m.params) == 1 and m.params[0] == "self":
+                body = [st for st in m.node.body if not (isinstance(st, ast.Expr) and isinstance(st.value, ast.Constant))]
+                if len(body) >= 1 and isinstance(body[-1], ast.Return) and body[-1].value is not None \
+                        and all(isinstance(st, (ast.Assign, ast.AnnAssign)) for st in body[:-1]) \
+                        and not any(isinstance(x, ast.Call) for st in body for x in ast.walk(st)):
+                    try:
+                        val = FA(fa.ck, m).expand(body[-1].value)
+                    except Exception:  # noqa - a property the expander cannot place: unknown
+                        return None
+                    depth[0] += 1
+                    try:
+                        return holder["asm"].ev(val)
+                    finally:
+                        depth[0] -= 1
         return None
+    depth, holder = [0], {}
     asm = Assume(fa, atom)
+    holder["asm"] = asm
     tests = [n.id for n in fa.cfg.nodes if n.kind == "test" and asm.truth(n.ast, n.id) is not None]
     return asm.edge_ok, tests, asm
 
